@@ -67,12 +67,6 @@ Lemma get_stream_set_file w k t s : get_stream (set_file w k t) s = get_stream w
 Proof. reflexivity. Qed.
 
 (* ---------------------------------------------------------------- one step *)
-Ltac step_cases :=
-  unfold step;
-  repeat match goal with
-         | |- context [match ?x with _ => _ end] => destruct x
-         end.
-
 (* whatever happened before, a call does what the ONE-SHOT specification says for its cell *)
 Lemma step_action_is_spec w c slot o v md : fst (snd (step w (OCall c slot o v md))) = spec c.
 Proof.
